@@ -113,7 +113,7 @@ CHECKS = {
     },
     "C16": {
         "text": "Provision.tla models every actor message of update/reset/timeup/query and the file steps of write_provision_state; TLC checks FinishedOnlyAfter, Answer, ErrorTextExact, QueryTruth, TagAtomic exhaustively; TLC-generated schedules (including every counterexample class found on the original design) are replayed on the real code through the H5 schedule gates and the real HTTP /provision endpoint, and random gated runs plus strace-delayed file races are validated by TLC against the property-level trace spec.",
-        "note": "Schedules are forced with cfg-guarded gates at the entry of the provision actor's client calls; file-step interleavings rely on strace delay injection; no gate between get_state and the channel-state read. status.tag is looked at after every step by a reader that keeps the previously seen file open: same inode with different content, or a change readable through the old descriptor, is an in-place modification (TagInPlace); a status.tag that was seen once and is missing at a later look (also while the publisher is parked at a gate) is a non-atomic replacement (TagVanished). Directed sequential histories (deadline with two subsystems missing, query, one reports, query, ...) compare every error text with what had been reported at that moment without holding any query at a gate; a schedule on which a task neither parks nor returns within 2.5 s is abandoned and counted (stuck_runs), a tool error only if nothing could be replayed.",
+        "note": "Schedules are forced with cfg-guarded gates at the entry of the provision actor's client calls; file-step interleavings rely on strace delay injection; no gate between get_state and the channel-state read. status.tag is looked at after every step by a reader that keeps the previously seen file open: same inode with different content, or a change readable through the old descriptor, is an in-place modification (TagInPlace); a status.tag that was seen once and is missing at a later look (also while the publisher is parked at a gate) is a non-atomic replacement (TagVanished). Directed sequential histories (deadline with two subsystems missing, query, one reports, query, ...) compare every error text with what had been reported at that moment without holding any query at a gate; a schedule on which a task neither parks nor returns within 2.5 s is abandoned and counted (stuck_runs), a tool error only if nothing could be replayed. The waiting client of `--status --wait` is a process of Provision.tla (WPoll: every poll names the instant of the first) and is driven for real: provision_query::ProvisionQuery polls the real listener through a capturing forwarder, the key keeper not serving the notification; every request must carry the tick the query was created with (WaitQueryInstant) and the value the client returns is judged by QueryTruth/QueryComplete for that instant.",
         "technique": "TLA+ spec + TLC model checking; deterministic schedule replay through gates; impl->spec trace validation",
         "design_ref": "DESIGN.md §3 Provision.tla",
     },
@@ -177,7 +177,10 @@ CHECKS = {
                 "rename, before the removals are complete; real SIGKILL via strace injection at the unlink) and "
                 "restarted is part of the verdict: the count may exceed the configured one by the number of such "
                 "kills only until the next completed roll, and never after a completed roll. Rule-dump ids used by "
-                "the check are deliberately not monotone.",
+                "the check are deliberately not monotone. Event flushes may fail after creating their temp file "
+                "(RLIMIT_FSIZE=0 in the driver): the cap bounds ALL entries of the event directory, counted from "
+                "the raw listing. Directories are listed before and after the logger objects are created: a "
+                "restart is an observed step (crash loops of short runs included).",
         "note": "One writer per log, wall clock monotone between rolls/dumps (oldest decided by name). Kill between "
                 "system calls inside a roll is outside C19's quantifier (reported as coverage.crash_window). The "
                 "rename fault is realised as EBUSY on a bind-mounted file; needs `unshare -m` (root).",
